@@ -381,16 +381,12 @@ func Run(a Matrix, args ...interface{}) (Matrix, Matrix, Matrix, error) {
   if inSitu.T5 == nil {
     inSitu.T5 = NullScalar(t)
   }
-  // HouseholderBidiagonalization InSitu
-  if inSitu.HouseholderBidiagonalization.A == nil {
-    inSitu.HouseholderBidiagonalization.A = inSitu.A
-  }
-  if inSitu.HouseholderBidiagonalization.U == nil {
-    inSitu.HouseholderBidiagonalization.U = inSitu.U
-  }
-  if inSitu.HouseholderBidiagonalization.V == nil {
-    inSitu.HouseholderBidiagonalization.V = inSitu.V
-  }
+  // HouseholderBidiagonalization InSitu: the bidiagonalization works in the
+  // matrices of this call (a recycled InSitu object may hold the matrices of
+  // a previous call, which the caller has replaced in the meantime)
+  inSitu.HouseholderBidiagonalization.A = inSitu.A
+  inSitu.HouseholderBidiagonalization.U = inSitu.U
+  inSitu.HouseholderBidiagonalization.V = inSitu.V
   if inSitu.HouseholderBidiagonalization.Beta == nil {
     inSitu.HouseholderBidiagonalization.Beta = inSitu.T4
   }
